@@ -1,7 +1,7 @@
-(** C04 — the LOGIN line: for blank-free, quote-free arguments (atom or quoted
-    form) raven hands exactly the supplied user name and password on. *)
+(** C04 — the LOGIN line: user name and password written as atoms or as quoted
+    strings (any octets) reach authenticateUser exactly as supplied. *)
 From Coq Require Import String Ascii List Bool Arith NArith Lia.
-From Raven Require Import Base.GoStr Base.GoStrFacts Spec.Json Model.Auth Spec.AuthSpec.
+From Raven Require Import Base.GoStr Base.GoStrFacts Spec.Json Model.CmdTokenizer Model.Auth Spec.CmdArgs Spec.AuthSpec Proof.CmdTokenizer.
 Import ListNotations.
 Local Open Scope char_scope.
 
@@ -82,74 +82,63 @@ Proof.
   rewrite drop_while_none; [apply rev_involutive|]. now rewrite forallb_rev.
 Qed.
 
-Lemma trim_quoted (u : str) : forallb (fun c => negb (in_set [DQ] c)) u = true ->
-  trim (DQ :: u ++ [DQ]) [DQ] = u.
-Proof.
-  intros H. unfold trim, trim_f, trim_right_f, trim_left_f.
-  assert (Q : in_set [DQ] DQ = true) by reflexivity.
-  cbn [drop_while]. rewrite Q.
-  destruct u as [|c u].
-  - simpl. reflexivity.
-  - assert (Hc : in_set [DQ] c = false).
-    { simpl in H. apply andb_true_iff in H as [H _]. now apply negb_true_iff in H. }
-    change ((c :: u) ++ [DQ]) with (c :: (u ++ [DQ])). cbn [drop_while]. rewrite Hc.
-    change (c :: u ++ [DQ]) with ((c :: u) ++ [DQ]). remember (c :: u) as v eqn:Ev.
-    rewrite rev_app_distr. cbn [rev app drop_while]. rewrite Q.
-    rewrite drop_while_none; [apply rev_involutive|]. now rewrite forallb_rev.
-Qed.
-
 Lemma forallb_impl {A} (f g : A -> bool) l :
   (forall x, f x = true -> g x = true) -> forallb f l = true -> forallb g l = true.
 Proof. intros I. induction l as [|x l IH]; [reflexivity|]. simpl. rewrite !andb_true_iff. intros [H1 H2]. split; auto. Qed.
 
-Lemma token_c_inv c : token_c c = true ->
-  is_space c = false /\ Ascii.eqb c DQ = false /\ Ascii.eqb c BSL = false.
-Proof. unfold token_c. rewrite !andb_true_iff, !negb_true_iff. tauto. Qed.
 
-Lemma token_inv u : token u = true ->
-  nsp u = true /\ forallb (fun c => negb (in_set [DQ] c)) u = true
-  /\ flat_map (fun c => if Ascii.eqb c DQ || Ascii.eqb c BSL then [BSL; c] else [c]) u = u.
+(** trimming white space off a string whose first and last octets are not white space *)
+Lemma trim_space_ends a m z t : is_space a = false -> is_space z = false -> allsp t = true ->
+  trim_space ((a :: m ++ [z]) ++ t) = a :: m ++ [z].
 Proof.
-  intros T. split; [|split].
-  - revert T. apply forallb_impl. intros c H. apply token_c_inv in H as (S & _ & _). now rewrite S.
-  - revert T. apply forallb_impl. intros c H. apply token_c_inv in H as (_ & Q & _).
-    unfold in_set. cbn [existsb]. now rewrite Q.
-  - induction u as [|c u IH]; [reflexivity|]. cbn [token forallb] in T. apply andb_true_iff in T as [Hc Hu].
-    apply token_c_inv in Hc as (_ & Q & B). cbn [flat_map]. rewrite Q, B. cbn [orb app]. now rewrite (IH Hu).
+  intros Ha Hz Ht. unfold trim_space, trim_f, trim_right_f, trim_left_f.
+  change ((a :: m ++ [z]) ++ t) with (a :: ((m ++ [z]) ++ t)). cbn [drop_while]. rewrite Ha.
+  change (a :: (m ++ [z]) ++ t) with ((a :: m ++ [z]) ++ t).
+  rewrite rev_app_distr.
+  assert (D1 : forall x y : str, forallb is_space x = true -> drop_while is_space (x ++ y) = drop_while is_space y).
+  { induction x as [|c x IH]; intros y H; [reflexivity|]. simpl in H. apply andb_true_iff in H as [H1 H2]. simpl. now rewrite H1, IH. }
+  rewrite D1 by (unfold allsp in Ht; now rewrite forallb_rev).
+  change (a :: m ++ [z]) with ((a :: m) ++ [z]). rewrite rev_app_distr. cbn [rev app drop_while]. rewrite Hz.
+  change (z :: rev m ++ [a]) with ([z] ++ rev (a :: m)). rewrite rev_app_distr, rev_involutive. reflexivity.
 Qed.
 
-Lemma render_props f u : token u = true -> (f = Atom -> u <> []) ->
-  nsp (render f u) = true /\ render f u <> [] /\ trim (render f u) [DQ] = u.
+Lemma atom_first_last s : atom_ok s = true ->
+  (exists a r, s = a :: r /\ is_space a = false) /\ (exists r z, s = r ++ [z] /\ is_space z = false).
 Proof.
-  intros T NE. destruct (token_inv _ T) as (N & D & F). destruct f; simpl render.
-  - split; [exact N|]. split; [now apply NE|]. now apply trim_f_none.
-  - unfold imap_quote. rewrite F. split.
-    + unfold nsp in *. simpl. rewrite forallb_app, N. reflexivity.
-    + split; [discriminate|]. now apply trim_quoted.
+  unfold atom_ok. rewrite andb_true_iff. intros [H N]. destruct s as [|a r]; [discriminate|]. split.
+  - exists a, r. split; [reflexivity|]. simpl in H. apply andb_true_iff in H as [Ha _]. now apply atom_c_inv in Ha as [Sa _].
+  - destruct (exists_last (l := a :: r)) as (r' & z & E); [discriminate|]. exists r', z. split; [exact E|].
+    rewrite E, forallb_app in H. apply andb_true_iff in H as [_ Hz]. simpl in Hz. rewrite andb_true_r in Hz.
+    now apply atom_c_inv in Hz as [Sz _].
 Qed.
 
-Lemma classify_login_none fu fp u p : classify_login fu fp u p = None ->
-  token u = true /\ token p = true /\ (fu = Atom -> u <> []) /\ (fp = Atom -> p <> []).
+Lemma render_last f s : arg_ok (f, s) = true -> exists r z, render_arg f s = r ++ [z] /\ is_space z = false.
 Proof.
-  unfold classify_login.
-  destruct (token u) eqn:Tu, (token p) eqn:Tp; simpl; try (destruct fu; discriminate);
-    try (destruct fu, fp; destruct u; discriminate).
-  destruct fu, fp, u, p; simpl; try discriminate; intros _; repeat split; congruence.
+  destruct f; cbn [arg_ok fst snd render_arg]; intros A.
+  - now destruct (atom_first_last _ A) as [_ H].
+  - unfold quote_string. eexists (DQUOTE :: _), DQUOTE. split; [reflexivity|reflexivity].
 Qed.
 
-(** LOGIN: credentials supplied as atoms or quoted strings made of blank-free,
-    quote-free, backslash-free ASCII octets reach authenticateUser unaltered *)
+(** LOGIN: user name and password supplied as atoms or as quoted strings of
+    arbitrary octets reach authenticateUser unaltered *)
 Theorem login_args_exact tag fu fp u p :
-  nsp tag = true -> tag <> [] ->
-  classify_login fu fp u p = None ->
+  atom_ok tag = true -> arg_ok (fu, u) = true -> arg_ok (fp, p) = true ->
   login_creds false true (login_line tag fu fp u p) = Creds u p.
 Proof.
-  intros Nt Et C. destruct (classify_login_none _ _ _ _ C) as (Tu & Tp & Eu & Ep).
-  destruct (render_props fu u Tu Eu) as (Nu & NEu & Ru).
-  destruct (render_props fp p Tp Ep) as (Np & NEp & Rp).
-  unfold login_creds, login_line. rewrite fields_trim_space.
-  change (tag ++ S_ " LOGIN " ++ render fu u ++ S_ " " ++ render fp p ++ crlf)
-    with (tag ++ " " :: S_ "LOGIN" ++ " " :: render fu u ++ " " :: render fp p ++ crlf).
-  rewrite fields_four; auto; try discriminate.
-  cbn -[trim]. now rewrite Ru, Rp.
+  intros At Au Ap. unfold login_creds, login_line.
+  set (args := [(AtomForm, tag); (AtomForm, S_ "LOGIN"); (fu, u); (fp, p)]).
+  assert (Aall : forallb arg_ok args = true).
+  { unfold args. cbn [forallb]. rewrite Au, Ap. cbn [arg_ok fst snd]. rewrite At. reflexivity. }
+  (* the line without its CRLF *)
+  assert (Trim : trim_space (render_line args ++ crlf) = render_line args).
+  { destruct (atom_first_last _ At) as [(a & r & Et & Sa) _].
+    destruct (render_last _ _ Ap) as (rp & z & Ep & Sz).
+    unfold args. cbn [render_line fst snd]. change (render_arg AtomForm tag) with tag. change (render_arg AtomForm (S_ "LOGIN")) with (S_ "LOGIN"). rewrite Ep, Et.
+    replace ((a :: r) ++ " " :: S_ "LOGIN" ++ " " :: render_arg fu u ++ " " :: rp ++ [z])
+      with (a :: (r ++ " " :: S_ "LOGIN" ++ " " :: render_arg fu u ++ " " :: rp) ++ [z]).
+    - apply trim_space_ends; auto.
+    - simpl. f_equal. rewrite <- !app_assoc. simpl. rewrite <- !app_assoc. reflexivity. }
+  rewrite Trim, (split_roundtrip _ Aall). unfold args. cbn [map fst snd]. change (render_arg AtomForm tag) with tag. change (render_arg AtomForm (S_ "LOGIN")) with (S_ "LOGIN").
+  change (str_eqb (to_upper (S_ "LOGIN")) (S_ "LOGIN")) with true. cbv iota.
+  now rewrite (parse_render _ _ Au), (parse_render _ _ Ap).
 Qed.
